@@ -120,6 +120,21 @@ def apply_everywhere(rec, root, rules, rng, cap=6, check_original=False):
     return out
 
 
+def _small(root, limit=150):
+    n = 0
+    stack = [root]
+    while stack:
+        x = stack.pop()
+        if x is None:
+            continue
+        n += 1
+        if n > limit:
+            return False
+        stack.append(x.left)
+        stack.append(x.right)
+    return True
+
+
 def inplace_chain(rec, root, rules, rng, steps=6, big=False, on_step=None):
     """Rules are in-place operations: apply a sequence of them directly to ONE evolving tree
     object (no clone_from_root between the steps), the way the repository's own tests use
@@ -128,6 +143,20 @@ def inplace_chain(rec, root, rules, rng, steps=6, big=False, on_step=None):
     done = []
     previous = []
     for _ in range(steps):
+        if rng.random() < 0.5 and _small(cur):
+            # the state is shown to someone between the steps: every rendering is a pure read
+            # (very deep trees are left out: the renderers recurse per level and, with the raised
+            # recursion limit of the shards, would exhaust the C stack)
+            for read in ("terminal_text", "raw", "to_math_ml", "__str__"):
+                if read == "to_math_ml" and not _small(cur, 30):
+                    continue   # MultiplyExpression.to_math_ml_fragment renders both operands twice: 2^depth on product chains
+                try:
+                    v = getattr(cur, read)
+                    if callable(v):
+                        v()
+                except Exception:
+                    pass
+            rec.arm("inplace:renderings-read-between-steps")
         cands = []
         # the listing is usually made on the whole tree, sometimes only on a part of it (one side of
         # an equation, one operand): find_nodes numbers the nodes of whatever it was given
@@ -218,6 +247,9 @@ def apply_from_subtree_listing(rec, root, rules, rng, cap=2):
 def replay_apply(w):
     """Re-drive one recorded application: witness has tree (JSON shadow), rule, node_index."""
     root = S.build(S.from_json(w["tree"]))
+    if w.get("ids_preorder"):
+        for n, i in zip(S.nodes_preorder(root), w["ids_preorder"]):
+            n.id = i
     rule = MR.make_rule(w["rule"])
     node = S.nodes_inorder(root)[w["node_index"]]
     MR.HINTS[:] = []
